@@ -424,5 +424,8 @@ PROPS["C07"]["explanation"] += " (TRAIL) see C04: appends to a Vdata stored as l
 PROPS["C13"]["rules"] = PROPS["C13"]["rules"] + [rules_handles.rule_cross_object_compare]
 PROPS["C13"]["explanation"] += " (SELFCMP) a same-file guard in the V interface compares fields of two different objects on every path (the local it tests was not loaded from the field it is compared with)."
 
+PROPS["C13"]["rules"] = PROPS["C13"]["rules"] + [rules_handles.rule_cache_full_scan]
+PROPS["C13"]["explanation"] += " (FULLSCAN) every loop over the atom lookup cache covers all of its slots, so a released id is purged from each of them."
+
 NOT_APPLICABLE = {}
 
